@@ -124,12 +124,12 @@ Qed.
 (* ---------- find / enum ---------- *)
 Lemma find_tx_some S p t : find_tx S p = Some t -> t_id t = p /\ exists h, In (t, h) S.
 Proof.
-  unfold find_tx. destruct (find (fun x : stx => N.eqb (t_id (fst x)) p) S) as [[t' h]|] eqn:E; intro H; inversion H; subst.
-  apply find_some in E. destruct E as [E1 E2]. simpl in *. apply N.eqb_eq in E2. split; auto. exists h. auto.
+  unfold find_tx. match goal with |- context [find ?f S] => destruct (find f S) as [[t' h]|] eqn:E end; intro H; inversion H; subst.
+  apply find_some in E. destruct E as [E1 E2]. simpl in E2. apply N.eqb_eq in E2. simpl in *. split; [exact E2 | exists h; exact E1].
 Qed.
 Lemma find_tx_none S p : find_tx S p = None -> forall t h, In (t, h) S -> t_id t <> p.
 Proof.
-  unfold find_tx. destruct (find (fun x : stx => N.eqb (t_id (fst x)) p) S) as [x|] eqn:E; intro H; try discriminate.
+  unfold find_tx. match goal with |- context [find ?f S] => destruct (find f S) as [x|] eqn:E end; intro H; try discriminate.
   intros t h I Q. eapply find_none in E; eauto. simpl in E. apply N.eqb_neq in E. contradiction.
 Qed.
 Lemma find_tx_exists S t h : In (t, h) S -> exists t', find_tx S (t_id t) = Some t'.
